@@ -1037,6 +1037,77 @@ func ruleLatch(c *Ctx, rule string) {
 		})
 	}
 	c.check(okDel, rule, "remove: matches the entry by channel identity", posOf(w, rm), "chans[i].ch == ch", "remove does not select the entry whose channel is the one given")
+	// ... and takes exactly that entry out of the list, shifting the rest down: one of the deletion idioms
+	//   chans = append(chans[:i], chans[i+1:]...) | chans = slices.Delete(chans, i, i+1) |
+	//   copy(chans[i:…], chans[i+1:]); chans[len-1] = zero; chans = chans[:len-1]
+	// where a slot that is cleared afterwards is the LAST one (clearing slot i wipes the entry that was just moved there)
+	okShape, whyShape := false, "unrecognised deletion shape"
+	sameIdx := func(a, b ssa.Value) bool { return a != nil && b != nil && (stripConv(a) == stripConv(b) || origin(a) == origin(b)) }
+	isIdxPlus1 := func(v, i ssa.Value) bool {
+		b, ok := stripConv(v).(*ssa.BinOp)
+		if !ok || b.Op != token.ADD {
+			return false
+		}
+		k, isK := constInt(b.Y)
+		return isK && k == 1 && sameIdx(b.X, i)
+	}
+	for _, st := range storesToField(rm, chans) {
+		switch x := stripConv(st.Val).(type) {
+		case *ssa.Call:
+			cn := calleeName(x)
+			if cn == "builtin.append" && len(x.Call.Args) == 2 {
+				s1, ok1 := stripConv(x.Call.Args[0]).(*ssa.Slice)
+				s2, ok2 := stripConv(x.Call.Args[1]).(*ssa.Slice)
+				if ok1 && ok2 && isFieldLoad(s1.X, chans) && isFieldLoad(s2.X, chans) && s1.Low == nil && s1.High != nil && s2.High == nil && isIdxPlus1(s2.Low, s1.High) {
+					okShape = true
+				} else {
+					whyShape = "the list is rebuilt as " + desc(st.Val) + ", not append(chans[:i], chans[i+1:]...)"
+				}
+			}
+			if g := staticCallee(x); g != nil && g.Pkg != nil && g.Pkg.Pkg.Path() == "slices" && strings.HasPrefix(g.Name(), "Delete") && len(x.Call.Args) == 3 {
+				if isFieldLoad(x.Call.Args[0], chans) && isIdxPlus1(x.Call.Args[2], x.Call.Args[1]) {
+					okShape = true
+				}
+			}
+		case *ssa.Slice:
+			// truncation after a copy that shifted the tail down
+			if !isFieldLoad(x.X, chans) || x.Low != nil || x.High == nil {
+				continue
+			}
+			var cp *ssa.Call
+			allInstrs(rm, func(in ssa.Instruction) {
+				if call, ok := in.(*ssa.Call); ok && calleeName(call) == "builtin.copy" && dominates(call, st) {
+					cp = call
+				}
+			})
+			if cp == nil {
+				whyShape = "the list is truncated without the tail having been shifted down"
+				continue
+			}
+			d, okD := stripConv(cp.Call.Args[0]).(*ssa.Slice)
+			sr, okS := stripConv(cp.Call.Args[1]).(*ssa.Slice)
+			if !okD || !okS || d.Low == nil || !isIdxPlus1(sr.Low, d.Low) {
+				whyShape = "the copy is " + desc(cp) + ", not copy(chans[i:…], chans[i+1:])"
+				continue
+			}
+			okShape = true
+			// a cleared slot must be the last one
+			allInstrs(rm, func(in ssa.Instruction) {
+				z, ok := in.(*ssa.Store)
+				if !ok {
+					return
+				}
+				ia, isIA := z.Addr.(*ssa.IndexAddr)
+				if !isIA || !isFieldLoad(ia.X, chans) {
+					return
+				}
+				if sameIdx(ia.Index, d.Low) && !sameIdx(ia.Index, x.High) {
+					okShape, whyShape = false, "after shifting the tail down the slot that is cleared is the one at the removed index — which now holds the NEXT tunnel — instead of the last slot"
+				}
+			})
+		}
+	}
+	c.check(okShape, rule, "remove: deletes exactly the matched entry", posOf(w, rm), "append(chans[:i], chans[i+1:]...) / slices.Delete / copy+truncate", "remove does not take exactly the matched entry out of the list ("+whyShape+"): an open tunnel is lost from routing (or a nil entry is handed out by the round-robin pick) while the closed one may stay")
 	// waitForReady
 	var sel *ssa.Select
 	allInstrs(wfr, func(in ssa.Instruction) {
